@@ -68,8 +68,8 @@ add("hdr_flat_trunc", ["C03", "C04", "C05", "C12", "C13", "C17"], "hdr.rs", "U",
 EDR_B = "24-byte symbolic stream, 3 scripted reads of 0..=8 bytes each (0 = temporary EOF) then EOF, request length as in the name (the call sites use 1, 8, 16 and payload sizes), 16 symbolic stale bytes, fill<=8, cursor<=fill, base<2^40"
 for n, cap, ff in (("edr_refill_cap16_len16", 16, False), ("edr_first_fill_cap16_len8", 16, True), ("edr_refill_cap8_len16", 8, False),
                    ("edr_first_fill_cap0_len1", 0, True), ("edr_refill_cap16_len5", 16, False)):
-    add(n, ["C04", "C05"], "edr.rs", "U",
-        "ensure_data_read: position fixed, buffered window == stream at every absolute position, only extended, no byte lost/duplicated, "
+    add(n, ["C04", "C05", "C17"], "edr.rs", "U",
+        "ensure_data_read: allocation <= max(old, requested); position fixed, buffered window == stream at every absolute position, only extended, no byte lost/duplicated, "
         "Ok(true) => bytes present, Ok(false) only after the source returned 0" + (" (first fill)" if ff else ""),
         EDR_B + ", allocation %d" % cap, timeout_s=600, mem_gb=6, stubs=IO_HASH,
         assumes=["Inv_buf on the seeded state", "source delivers the stream in order (Read contract)"])
@@ -79,8 +79,19 @@ add("edr_source_error", ["C05"], "edr.rs", "U", "a failing source.read surfaces 
 
 # ---------------------------------------------------------------- writer units
 WST = ["io", "fmt", "toolerr"]
-add("c16w_uint", ["C16", "C01", "C02"], "wr.rs", "U", "write_unsigned_int_tag::<0>: id | 0x80+w | big-endian, w minimal in {1,2,4,8}; arr_to_u64 inverts", V64, timeout_s=1200, mem_gb=8, stubs=WST)
-add("c16w_int", ["C16", "C01", "C02"], "wr.rs", "U", "write_signed_int_tag::<0>: minimal two's-complement width; arr_to_i64 inverts", "all 2^64 i64 values", timeout_s=1200, mem_gb=8, stubs=WST)
+CLS = {1: "values whose minimal width is 1 byte", 2: "minimal width 2", 4: "minimal width 4", 8: "minimal width 8"}
+for c in (1, 2, 4, 8):
+    add("c16w_uint_w0_c%d" % c, ["C16", "C01", "C02"], "wr.rs", "U", "write_unsigned_int_tag::<0>: id | 0x80+w | big-endian, w minimal in {1,2,4,8}; arr_to_u64 inverts",
+        "all u64 in the class: %s (the 4 class harnesses together cover all 2^64 values)" % CLS[c], timeout_s=1200, mem_gb=8, stubs=WST)
+    add("c16w_int_w0_c%d" % c, ["C16", "C01", "C02"], "wr.rs", "U", "write_signed_int_tag::<0>: minimal two's-complement width; arr_to_i64 inverts",
+        "all i64 in the class: %s (4 classes cover all 2^64 values)" % CLS[c], timeout_s=1200, mem_gb=8, stubs=WST)
+    add("c09_uint_w2_c%d" % c, ["C09", "C01", "C16"], "wr.rs", "U", "write_unsigned_int_tag::<2>: same id and payload bytes as the default form, size field exactly 2 bytes",
+        "all u64 in the class: %s" % CLS[c], timeout_s=1200, mem_gb=8, stubs=WST)
+    add("c09_int_w2_c%d" % c, ["C09", "C01", "C16"], "wr.rs", "U", "write_signed_int_tag::<2>: same id and payload bytes as the default form, size field exactly 2 bytes",
+        "all i64 in the class: %s" % CLS[c], timeout_s=1200, mem_gb=8, stubs=WST)
+add("c09_uint_w8_c4", ["C09", "C01"], "wr.rs", "U", "write_unsigned_int_tag::<8>, 4-byte class", "all u64 with minimal width 4", tier="thorough", timeout_s=1200, mem_gb=8, stubs=WST)
+add("c09_int_w8_c4", ["C09", "C01"], "wr.rs", "U", "write_signed_int_tag::<8>, 4-byte class", "all i64 with minimal width 4", tier="thorough", timeout_s=1200, mem_gb=8, stubs=WST)
+add("c09_float_w3", ["C09", "C01"], "wr.rs", "U", "write_float_tag::<3>: size field exactly 3 bytes, payload bit-exact", "all 2^64 bit patterns", timeout_s=1200, mem_gb=8, stubs=WST)
 add("c16w_float", ["C16", "C01", "C02"], "wr.rs", "U", "write_float_tag::<0>: 8 bytes, bit pattern preserved; arr_to_f64 inverts bit for bit", "all 2^64 bit patterns incl. NaNs", timeout_s=1200, mem_gb=8, stubs=WST)
 add("c09_id_bytes", ["C09", "C01"], "wr.rs", "U", "element id emitted unchanged in exactly its byte length", "all well-formed ids (1..=8 bytes)", timeout_s=1200, mem_gb=8, stubs=WST,
     assumes=["id well-formed (the writer is only given spec ids or ids that passed is_vint)"])
@@ -103,7 +114,7 @@ add("c19_end_tag_any_id_inner_known", ["C19"], "wr.rs", "U", "end_tag(any other 
 add("c19_end_tag_no_open", ["C19"], "wr.rs", "U", "end_tag with nothing open: Err and state unchanged", "all ids", timeout_s=600, mem_gb=6, stubs=WST, assumes=C19A)
 for n in (127, 128):
     add("c19_end_tag_width1_content%d" % n, ["C19", "C09"], "wr.rs", "U", "end_tag of a width-1 master with %d content bytes: Err, master still open, buffer unchanged" % n,
-        "content bytes concrete", timeout_s=900, mem_gb=8, stubs=WST, assumes=C19A)
+        "content bytes concrete", tier="thorough", timeout_s=3600, mem_gb=12, stubs=WST, assumes=C19A)
 add("c19_unknown_size_non_master", ["C19"], "wr.rs", "U", "write_advanced(leaf, unknown size): Err and state == snapshot", "all u64 payload values, spec Tree", timeout_s=900, mem_gb=8, stubs=WST, assumes=C19A)
 add("c19_raw_malformed_id", ["C19"], "wr.rs", "U", "write(raw tag with malformed id): TagIdError(id) and state == snapshot", "all ids outside Tree that are not well-formed", timeout_s=900, mem_gb=8, stubs=WST, assumes=C19A)
 add("c19_full_invalid_child", ["C19", "C09"], "wr.rs", "U", "public write(Full(A,[L3 (misplaced)])) under an open Root: UnexpectedTag(L3) and state == snapshot",
@@ -119,3 +130,74 @@ for d, what in (("d1", "all six data types, depth-2 paths, 1-3 byte ids (the rep
                      ("heap", "utf8/binary/master constructors Some iff type matches, payload via matching accessor only; raw-tag variant keeps id and bytes, binary-only (both front-ends)")):
         add("c18_%s_%s" % (asp, d), ["C18"], "c18.rs", "L", dec,
             "declaration %s (%s) expanded by the real macros; probe id: all 2^64 values; payloads symbolic" % (d, what), timeout_s=900, mem_gb=8)
+
+# ---------------------------------------------------------------- hierarchy decision logic
+for p, c in ((0, 0), (0, 1), (1, 0), (1, 1), (1, 2), (1, 3), (2, 0), (2, 1), (2, 2), (2, 3), (3, 0), (3, 1), (3, 2), (3, 3)):
+    add("c11_validate_p%d_c%d" % (p, c), ["C11", "C06", "C02"], "hier.rs", "U", "validate_tag_path(tag, chain) == ref_match(chain, declared path) in both directions",
+        "ONE symbolic declared path of %d parts: each Id over a 4-id alphabet or Global(min,max) with min,max in {None,0..3}, max!=0, no adjacent globals, placeholders in ANY position; every chain of %d known-size masters over the alphabet" % (p, c),
+        timeout_s=1800, mem_gb=10, assumes=["all open masters known-size (writer shape; unknown-size closing is decided by hdr_tree_*)", "spec OnePath: a single probe element with the symbolic path"])
+add("c07_is_ended_by_table", ["C07", "C06", "C11"], "hier.rs", "U", "is_ended_by(m, e) == (e sibling of m | instance of an ancestor of m | root), never for globals or undeclared ids",
+    "m over the 5 masters of spec Tree, e: all 2^64 ids", timeout_s=900, mem_gb=6)
+
+# ---------------------------------------------------------------- try_recover unit
+REC_A = ["seeded state: one known-size Root open (offsets consistent, Inv_stack), document path determined, strict mode, source at EOF", "spec Mini (Root master, one unsigned child)"]
+add("c14_recover_junk1", ["C14", "C05"], "recover.rs", "U", "try_recover after 1 junk byte before a valid child: Ok, cursor +1 exactly, Root size +1, next header is the planted child",
+    "junk byte: any value that is no id of the spec; Root size: any >= fit; base offset < 2^40; child payload and trailing buffer bytes symbolic",
+    timeout_s=1800, mem_gb=16, stubs=IO_HASH, big_stack=True, assumes=REC_A + ["premise of the property: the following tag fits Root at its ORIGINAL size after the shift"])
+add("c14_recover_junk2", ["C14", "C05"], "recover.rs", "U", "same with 2 junk bytes", "as junk1, two junk bytes, neither an id of the spec", tier="thorough",
+    timeout_s=3600, mem_gb=16, stubs=IO_HASH, big_stack=True, assumes=REC_A)
+add("c14_recover_arbitrary_3", ["C14", "C05"], "recover.rs", "U", "try_recover on an arbitrary 3-byte remainder: no panic, never backwards nor past the end, Err only EOF/ReadError",
+    "3 symbolic bytes behind the cursor then EOF; Root size any; stale bytes symbolic", timeout_s=1800, mem_gb=16, stubs=IO_HASH, big_stack=True, assumes=REC_A)
+add("c14_recover_at_end", ["C14", "C05"], "recover.rs", "U", "try_recover with nothing left: no panic, position unchanged, EOF error", "cursor == fill, source exhausted",
+    timeout_s=900, mem_gb=8, stubs=IO_HASH, big_stack=True, assumes=REC_A)
+for n, W, u in (("c09_binary_w0", 0, 0), ("c09_binary_w1", 1, 0), ("c09_binary_w4", 4, 0), ("c09_binary_w8", 8, 0), ("c09_utf8_w0", 0, 1), ("c09_utf8_w2", 2, 1)):
+    add(n, ["C09", "C01", "C10"], "wr.rs", "U", "write_%s_tag::<%d>: buffer' == buffer | id | size field of width %s | payload; destination untouched while a known-size master is open" % ("utf8" if u else "binary", W, W or "default"),
+        "payload length 0..=3, bytes symbolic%s; 2 symbolic buffered bytes" % (" (ASCII)" if u else ""), timeout_s=1200, mem_gb=8, stubs=WST, assumes=C19A)
+add("c19_utf8_width1_overflow", ["C19", "C09"], "wr.rs", "U", "write_utf8_tag::<1> with 126..129-byte payload: Err iff len >= 127; on Err state == snapshot",
+    "payload length 126..=129 (bytes concrete)", timeout_s=900, mem_gb=8, stubs=WST, assumes=C19A)
+add("c09_width_dispatch", ["C09", "C01"], "wr.rs", "U", "public write_advanced(set_size_byte_count(w)) on an empty binary element: size field is exactly w bytes encoding 0",
+    "w symbolic 1..=8; spec Flat; one known-size master open", timeout_s=1800, mem_gb=12, stubs=WST)
+add("c09_unknown_size_equivalence", ["C09"], "wr.rs", "U", "deprecated write_unknown_size == write_advanced(is_unknown_sized_element): same result, same writer state; id + 8-byte all-ones size; master open as unknown",
+    "outer master known/unknown symbolic, 2 symbolic buffered bytes, spec Tree", timeout_s=1200, mem_gb=8, stubs=WST)
+for k in (1, 3):
+    add("c09_flush_short_%d" % k, ["C09", "C10"], "wr.rs", "U", "private_flush into a destination accepting <= %d bytes per write: destination == buffer, buffer emptied" % k,
+        "0..=7 buffered symbolic bytes", timeout_s=1200, mem_gb=8, stubs=WST, assumes=["destination accepts at least 1 byte per call (Write contract)"])
+for n, what in (("c10_stream_no_master", "no master open"), ("c10_stream_unknown_master", "one unknown-size master open"), ("c10_stream_known_master", "one known-size master open"),
+                ("c10_stream_unknown_in_known", "unknown-size master inside a known-size one"), ("c10_stream_known_in_unknown", "known-size master inside an unknown-size one")):
+    add(n, ["C10"], "wr.rs", "U", "public write of a global binary element, %s: destination only extended; no known-size master open => buffer empty and element fully handed over; otherwise destination untouched and buffer extended" % what,
+        "2 symbolic payload bytes, 3 symbolic buffered bytes; spec Tree", timeout_s=1200, mem_gb=8, stubs=WST, assumes=["Inv_w: no known-size master open => working buffer empty"])
+
+# ---------------------------------------------------------------- public-API skeleton documents (Flat, <= 3 next() calls)
+DOC_A = ["structure (element types, payload lengths, cut, read partition, capacity) is concrete and enumerated; only payload bytes are symbolic", "spec Flat (all elements at root level), strict mode",
+         "utf8 payload bytes restricted to ASCII"]
+DOCS = [("doc_u3_u1", "[U:3][U:1]"), ("doc_i2_i0", "[I:2][I:0]"), ("doc_f4_f8", "[F:4][F:8]"), ("doc_s2_b3", "[S:2][B:3]"), ("doc_b0_u8", "[B:0][U:8]"),
+        ("doc_u0_i8", "[U:0][I:8]"), ("doc_i1_s0", "[I:1][S:0]"), ("doc_f3_u1", "[F:3 (invalid float length)][U:1]"), ("doc_i7_f0", "[I:7][F:0 (invalid float length)]"), ("doc_b8_b1", "[B:8][B:1]")]
+QUICK_DOCS = {"doc_u3_u1", "doc_i2_i0", "doc_f4_f8", "doc_s2_b3", "doc_b0_u8", "doc_f3_u1"}
+for n, d in DOCS:
+    add(n, ["C03", "C05", "C16", "C02"], "doc.rs", "S", "public next() x3-4 on the complete document %s from a slice: each item has the id at its offset, the reference decoding of exactly its payload bytes, "
+        "offsets tile the stream; then None, and None again (fused); invalid float length -> CorruptedTagData, no panic" % d,
+        "all payload byte values; capacity 32", tier="quick" if n in QUICK_DOCS else "thorough", timeout_s=1500, mem_gb=12, stubs=IO_HASH, big_stack=True, assumes=DOC_A)
+for c in range(0, 9):
+    add("cut_u3_b2_at%d" % c, ["C12", "C05", "C03"], "doc.rs", "S", "document [U:3][B:2] truncated after %d of 9 bytes: exactly the contained tags, then None on a tag boundary, else UnexpectedEOF with start/id/size/partial data accurate; never corruption" % c,
+        "all payload byte values; cut position %d; capacity 32; slice source" % c, tier="quick" if c in (1, 2, 4, 5, 6, 8) else "thorough", timeout_s=1500, mem_gb=12, stubs=IO_HASH, big_stack=True, assumes=DOC_A)
+CH = [("chunk_u2_b1_1x7", "1-byte reads, capacity 16", "quick"), ("chunk_u2_b1_2_3_2", "reads 2|3|2, capacity 16", "quick"), ("chunk_u2_b1_4_1_2", "reads 4|1|2, capacity 16", "thorough"),
+      ("chunk_u2_b1_cap0", "capacity 0, reads 3|rest", "quick"), ("chunk_u2_b1_cap1", "capacity 1", "quick"), ("chunk_u2_b1_cap5", "capacity 5, reads 2|2|rest", "thorough"),
+      ("chunk_u2_b1_pause", "reads 4|Ok(0) pause at the tag boundary|3, EOF closing disabled", "quick"), ("chunkcut_u2_b1_at5_1s", "truncated after 5 bytes, 1-byte reads", "quick"),
+      ("slice_u2_b1_cap0", "slice source, capacity 0", "quick")]
+for n, d, tier in CH:
+    add(n, ["C04", "C05", "C12"] if "cut" in n else ["C04", "C05"], "doc.rs", "S", "document [U:2][B:1] (7 bytes) read with %s: same items, offsets and termination as the reference (= the one-shot result)" % d,
+        "all payload byte values; partition/capacity as named", tier=tier, timeout_s=1500, mem_gb=12, stubs=IO_HASH, big_stack=True, assumes=DOC_A)
+
+# ---------------------------------------------------------------- header unit on spec Tree with a seeded stack
+TREE_A = ["Inv_stack/Inv_strict on the seeded stack: a valid chain of open masters over Tree, starts increasing and before the cursor, known ranges nested, cursor before every known end",
+          "1-byte id and 1-2 byte size field (general header shapes are decided by hdr_flat_*)", "source at EOF, 20 bytes buffered behind the cursor"]
+for n, ch in (("hdr_tree_chain_empty", "no master open"), ("hdr_tree_chain_root", "[Root]"), ("hdr_tree_chain_root_a", "[Root, A]"), ("hdr_tree_chain_root_a_b", "[Root, A, B]"),
+              ("hdr_tree_chain_root_a2", "[Root, A2]"), ("hdr_tree_chain_root2", "[Root2]")):
+    add(n, ["C11", "C06", "C13", "C17", "C07"], "hdr_tree.rs", "U",
+        "peek_valid_tag_header with open masters %s: accepted iff (id in spec | tolerated) and declared path matches the chain left after closing unknown-size masters (| tolerated) and extent inside every known-size ancestor (| tolerated) and size <= limit; "
+        "each rejection carries its own kind, the offending id and offset" % ch,
+        "every 1-byte id x every 1-2 byte size field; each open master known/unknown-size with symbolic extents; all 8 tolerance masks; limit any Option<usize>; base offset < 2^40",
+        tier="quick" if n in ("hdr_tree_chain_root_a", "hdr_tree_chain_root_a_b", "hdr_tree_chain_empty") else "thorough",
+        timeout_s=2400, mem_gb=16, stubs=IO_HASH, big_stack=True, assumes=TREE_A)
+add("hdr_tree_first_element", ["C06", "C03"], "hdr_tree.rs", "U", "first element of a stream (position not yet fixed): a non-global element fixes it and its declared ancestors become open masters stored as End, offset 0, unknown size; a global does not",
+    "every 1-byte id x every 1-byte size field, strict mode", timeout_s=1800, mem_gb=12, stubs=IO_HASH, big_stack=True, assumes=["fresh iterator state, 20 bytes buffered"])
